@@ -76,13 +76,16 @@ NDivFrom(a, k, i, r) ==      \* from most significant limb i down to 1; returns 
        IN [q |-> rest.q \o <<x \div k>>, r |-> rest.r]
 NDivModSmall(a, k) == LET d == NDivFrom(a, k, Len(a), 0) IN [q |-> NNorm(d.q), r |-> d.r]
 
-RECURSIVE NPow10(_)
-NPow10(n) == IF n = 0 THEN <<1>> ELSE NMulSmall(NPow10(n - 1), 10)
+RECURSIVE NPow10R(_)
+NPow10R(n) == IF n = 0 THEN <<1>> ELSE NMulSmall(NPow10R(n - 1), 10)
+Pow10Table == FoldLeft(LAMBDA acc, i : Append(acc, NMulSmall(acc[Len(acc)], 10)), << <<1>> >>, [i \in 1..100 |-> i])
+NPow10(n) == IF n <= 100 THEN Pow10Table[n + 1] ELSE NPow10R(n)
 
 \* general multiplication (schoolbook), used rarely
 RECURSIVE NMulFrom(_, _, _)
 NMulFrom(a, b, i) == IF i > Len(b) THEN <<>>
-                     ELSE NAdd(NMulSmall(a, b[i]), (IF NMulFrom(a, b, i + 1) = <<>> THEN <<>> ELSE <<0>> \o NMulFrom(a, b, i + 1)))
+                     ELSE LET rest == NMulFrom(a, b, i + 1) IN
+                          NAdd(NMulSmall(a, b[i]), (IF rest = <<>> THEN <<>> ELSE <<0>> \o rest))
 NMul(a, b) == IF a = <<>> \/ b = <<>> THEN <<>> ELSE NNorm(NMulFrom(a, b, 1))
 
 \* ---- bits ---------------------------------------------------------------
@@ -139,9 +142,11 @@ ILe(x, y) == ICmp(x, y) <= 0
 IIsSmall(x) == NIsSmall(x.mag)
 IToInt(x) == IF x.neg THEN 0 - NToNat(x.mag) ELSE NToNat(x.mag)
 
-\* 2^n as a natural
-RECURSIVE NPow2(_)
-NPow2(n) == IF n = 0 THEN <<1>> ELSE NMulSmall(NPow2(n - 1), 2)
+\* 2^n as a natural; a table for n <= 320 (built once: constant definition), recursion beyond
+RECURSIVE NPow2R(_)
+NPow2R(n) == IF n = 0 THEN <<1>> ELSE NMulSmall(NPow2R(n - 1), 2)
+Pow2Table == FoldLeft(LAMBDA acc, i : Append(acc, NMulSmall(acc[Len(acc)], 2)), << <<1>> >>, [i \in 1..320 |-> i])
+NPow2(n) == IF n <= 320 THEN Pow2Table[n + 1] ELSE NPow2R(n)
 
 P2_31 == NPow2(31)
 P2_63 == NPow2(63)
